@@ -3,6 +3,7 @@
 mod c01;
 mod c02;
 mod c03;
+mod c04;
 mod c06;
 mod c07;
 mod c08;
@@ -58,6 +59,7 @@ fn main() {
         let v: serde_json::Value = std::fs::read_to_string(path).ok().and_then(|t| serde_json::from_str(&t).ok()).unwrap_or(serde_json::Value::Null);
         match prop.as_str() {
             "C01" => c01::replay(&mut rep, &v),
+            "C04" => c04::replay(&mut rep, &v),
             "C06" => c06::replay(&mut rep, &v),
             "C09" => c09::replay(&mut rep, &v),
             "C10" => c10::replay(&mut rep, &v),
@@ -75,6 +77,7 @@ fn main() {
         "C01" => c01::run(&mut rep, &tier, seed),
         "C02" => c02::run_c02(&mut rep, &tier, seed),
         "C03" => c03::run(&mut rep, &tier, seed),
+        "C04" => c04::run(&mut rep, &tier, seed),
         "C05" => c02::run_c05(&mut rep, &tier, seed),
         "C06" => c06::run(&mut rep, &tier, seed),
         "C07" => c07::run(&mut rep, &tier, seed),
